@@ -403,6 +403,14 @@ func (e *Env) evalBinary(n *spec.Binary) (SV, error) {
 		if err != nil {
 			return SV{}, err
 		}
+		// short-circuit on a statically false left side (the right side may not even be well-typed,
+		// e.g. as(x, T) for a type that is not loaded)
+		if a.S == "false" && n.Op == "==>" {
+			return SV{T: True}, nil
+		}
+		if a.S == "false" && n.Op == "&&" {
+			return SV{T: False}, nil
+		}
 		b, err := e.evalBool(n.Y)
 		if err != nil {
 			return SV{}, err
@@ -536,6 +544,12 @@ func (e *Env) evalSel(n *spec.Sel) (SV, error) {
 		return SV{}, fmt.Errorf("selector .%s on untyped value %s", n.Name, n.X)
 	}
 	obj, path, _ := types.LookupFieldOrMethod(v.Ty, true, e.pkg, n.Name)
+	if obj == nil {
+		// contracts may name unexported fields of a type from another package (assumed specs do)
+		if nt := namedOf(v.Ty); nt != nil && nt.Obj().Pkg() != nil {
+			obj, path, _ = types.LookupFieldOrMethod(v.Ty, true, nt.Obj().Pkg(), n.Name)
+		}
+	}
 	fld, ok := obj.(*types.Var)
 	if !ok || !fld.IsField() {
 		return SV{}, fmt.Errorf("no field %s in %s", n.Name, v.Ty)
@@ -854,7 +868,8 @@ func (e *Env) evalCall(n *spec.Call) (SV, error) {
 		}
 		t, err := e.lookupType(s.Val)
 		if err != nil {
-			return SV{}, err
+			// the type is not part of the loaded program: no value here can have it
+			return SV{T: False}, nil
 		}
 		return SV{T: Eq(ITag(v.T), IntLit(int64(vc.tt.tag(t))))}, nil
 	case "as":
